@@ -19,7 +19,7 @@ from .. import gen as G
 PID = 'C09'
 RULE = ('cases = (closure class or alias, hard-core flag, grid length 1-2048, gamma of scale 1e-4..50 with both signs, potential kind '
         'finite random | hard-core step + tail | zero | weak, sigma below/inside/on/above the grid); each case runs the direct call, '
-        'permuted/subsampled/one-element-at-a-time calls, the alias, a read-only replica and the weak-coupling limit; non-trivial = gamma '
+        'permuted/subsampled/one-element-at-a-time calls, a re-use of the same object with another potential and sigma, the alias, a read-only replica and the weak-coupling limit; non-trivial = gamma '
         'not identically zero and potential not identically zero; distinct = distinct case digests')
 ASSUMPTIONS = ['published relations: PY (e^-u - 1)(1+gamma); HNC e^(gamma-u)-1-gamma; MSA -u; MS exp(sqrt(1+2(gamma-u))-1)-1-gamma',
                'core = r <= sigma exactly as the statement says (contact-point tolerance is judged by C10 only)']
@@ -175,6 +175,18 @@ def run_case(ctx, case):
         out2 = np.array(c.calculate(np.array(r), np.array(gam)), dtype=float)
         if not np.array_equal(out, out2, equal_nan=True):
             ctx.violation('closure:not-repeatable', '%s: second identical call differs' % cname)
+        # --- the same object re-used with another potential and sigma (a closure carries no memory of earlier calls)
+        ctx.hook('object_reuse_probe')
+        u_new = np.array(u[::-1]) * float(rng.uniform(0.3, 2.0)) + (0.25 if pk != 'step' else 0.0)
+        c.potential = u_new
+        c.sigma = sigma * float(rng.choice([1.0, 0.7, 1.3]))
+        o_reuse = np.array(c.calculate(np.array(r), np.array(gam)), dtype=float)          # contract judges it against the CURRENT potential
+        cf = fresh()
+        cf.potential = np.array(u_new)
+        cf.sigma = c.sigma
+        o_fresh = np.array(cf.calculate(np.array(r), np.array(gam)), dtype=float)
+        if not np.array_equal(o_reuse, o_fresh, equal_nan=True):
+            ctx.violation('closure:result-depends-on-earlier-calls', '%s(hc=%s): an object evaluated before with another potential gives a different result than a fresh object' % (cname, hc))
         # --- elementwise: permutation, subsample, one element at a time
         ctx.hook('elementwise_probe')
         perm = rng.permutation(L)
